@@ -78,6 +78,14 @@ class ExprTranslator:
                 kind = "BSum" if f.attr == "sequence_sum" else "BProd"
                 term, it, lo, hi = node.args
                 return f"(EBig {kind} {self.tr_iter(it)} {self.tr(term)} {self.tr(lo)} {self.tr(hi)})"
+            if f.attr == "as_expression" and len(node.args) == 1 and isinstance(node.args[0], ast.Constant) and isinstance(node.args[0].value, str):
+                # backend.as_expression("1/2"): the text of an exact rational literal, parsed to that number
+                import re
+                from fractions import Fraction
+                txt = node.args[0].value.strip()
+                if not re.fullmatch(r"\d+(/\d+)?", txt):
+                    raise Untranslatable(f"as_expression of {txt!r}")
+                return f"(ENum {coq_q(Fraction(txt))})"
             if f.attr == "substitute" and len(node.args) == 3:
                 e, env, fm = node.args
                 if not (isinstance(fm, ast.Dict) and not fm.keys):
